@@ -612,7 +612,7 @@ def fault_applicable(world, pre, r):
             return False, "no-such-ce"
         if entry == "ce" and not _in_class(world, on[0], r["ce"]):
             return False, "not-in-composite"
-        if r["how"] in ("op2",):
+        if r["how"] in ("op2", "measure2"):
             if len(on) != 2 or not _live(pre, on[1]) or not _in_class(world, on[1], r["ce"]):
                 return False, "second-target"
         return True, ""
@@ -849,6 +849,9 @@ def execute_fault(world, pre, r):
                 ret = world.envs[world.env_of(on[0])].measure(subs[0], separate_measurement=True)
             else:
                 ret = world.ces[r["ce"]].measure(subs[0], separate_measurement=True)
+        elif how == "measure2":
+            # a live subsystem listed BEFORE the destroyed one: nothing may be measured
+            ret = world.ces[r["ce"]].measure(subs[1], subs[0], separate_measurement=True, destructive=bool(r.get("destr", True)))
         elif how == "povm":
             arrs = specs.to_library_arrays(R.dilation_kraus(d, 2, 9))
             if entry == "state":
